@@ -243,6 +243,221 @@ def run_pingpong(bad, want_by_d):
     return n
 
 
+# ------------------------------------------------------------------ foreign threads calling from_thread.run(token)
+import queue
+import sys
+import threading
+import time
+
+
+class FT:
+    """a thread not started by Trio; on command it calls trio.from_thread.run(afn, self, d, trio_token=token)"""
+
+    def __init__(self, tag, token):
+        self.tag, self.token = tag, token
+        self.cmd = queue.Queue()
+        self.callno = 0
+        self.serving = {}          # call number -> the Trio task serving it
+        self.bottom = 0            # call number whose alternation chain has reached its parking point
+        self.release = None        # trio.Event of the current call
+        self.returned = 0          # number of calls that have returned in the thread
+        self.thread = threading.Thread(target=self.body, daemon=True)
+        self.thread.start()
+
+    def body(self):
+        while True:
+            c = self.cmd.get()
+            if c is None:
+                return
+            trio.from_thread.run(afn, self, c, trio_token=self.token)
+            self.returned += 1
+
+    def chain(self):
+        """ground truth: the thread's real frames, outermost first"""
+        f = sys._current_frames().get(self.thread.ident)
+        out = []
+        while f is not None:
+            out.append(f)
+            f = f.f_back
+        return out[::-1]
+
+    def blocked_in_call(self):
+        """the thread sits in from_thread.run's wait for the reply (a C-level queue get made by _send_message_to_trio):
+        same innermost frame at the same instruction in two samples"""
+        def sample():
+            ch = self.chain()
+            if not ch or not any(f.f_code is trio.from_thread.run.__code__ for f in ch):
+                return None
+            top = ch[-1]
+            if top.f_code.co_name != "_send_message_to_trio" and top.f_code.co_filename not in (queue.__file__, threading.__file__):
+                return None
+            return (top, top.f_lasti)
+        a = sample()
+        if a is None:
+            return False
+        time.sleep(0.003)
+        return sample() == a
+
+
+async def afn(ft, d):
+    callno = ft.callno
+    ft.serving[callno] = trio.lowlevel.current_task()
+    ft.release = trio.Event()
+    await ft_t_level(ft, d)
+
+
+async def ft_t_level(ft, k):
+    if k > 0:
+        return await trio.to_thread.run_sync(ft_s_level, ft, k)
+    ft.bottom = ft.callno
+    await ft.release.wait()
+
+
+def ft_s_level(ft, k):
+    return trio.from_thread.run(ft_t_level, ft, k - 1)
+
+
+def ft_observe(fts, a, out, bad, acts):
+    ft = fts[a["t"]]
+    exp = a["exp"]
+    chain = ft.chain()
+    with warnings.catch_warnings(record=True) as wl:
+        warnings.simplefilter("always")
+        st = stackscope.extract(ft.thread)
+    out["observations"] += 1
+    b = []
+    frames = [f.pyframe for f in st.frames]
+    if st.error is not None:
+        b.append("error %r" % (st.error,))
+    if exp["state"] != "serving":
+        if frames != chain:
+            b.append("thread %s (%s): frames are not the thread's own: %s, the thread has %s" % (
+                ft.tag, exp["state"], [f.funcname for f in st.frames], [f.f_code.co_name for f in chain]))
+    else:
+        cut = next((i for i, f in enumerate(chain) if f.f_code is trio.from_thread.run.__code__), None)
+        if cut is None:
+            raise GroundTruth("thread %s is not inside from_thread.run" % ft.tag)
+        if frames[:cut + 1] != chain[:cut + 1]:
+            b.append("thread %s (serving): the outer frames are not the thread's own up to from_thread.run" % ft.tag)
+        tail = st.frames[cut + 1:]
+        proj = []
+        for f in tail:
+            loc = f.pyframe.f_locals
+            if f.funcname in ("afn", "ft_t_level", "ft_s_level") and f.pyframe.f_globals is globals():
+                if loc.get("ft") is not ft:
+                    b.append("thread %s: frame %s of ANOTHER thread's call" % (ft.tag, f.funcname))
+                proj.append(["afn", loc.get("callno")] if f.funcname == "afn" else
+                            [("t" if f.funcname == "ft_t_level" else "s"), loc.get("k")])
+            if f.funcname in ("run_foreign", "ft_hold"):
+                b.append("thread %s: frame %s of the main task" % (ft.tag, f.funcname))
+        if proj != [list(x) for x in exp["tail"]]:
+            b.append("thread %s (serving call %d): task frames %s, expected %s" % (ft.tag, exp["call"], proj, exp["tail"]))
+        task = ft.serving.get(exp["call"])
+        if task is None:
+            raise GroundTruth("no task registered for call %d of %s" % (exp["call"], ft.tag))
+        if tail and tail[0].pyframe is not task.coro.cr_frame:
+            b.append("thread %s: the frames after from_thread.run do not start with the serving task's coroutine" % ft.tag)
+    if [x for x in wl if issubclass(x.category, stackscope.InspectionWarning)]:
+        b.append("InspectionWarning")
+    if b:
+        bad.append({"bad": b[:3], "acts": acts})
+
+
+def ft_wait(pred, what):
+    t0 = time.time()
+    while not pred():
+        if time.time() - t0 > 10:
+            raise GroundTruth("timeout waiting for " + what)
+        time.sleep(0.001)
+
+
+async def ft_await(pred, what):
+    t0 = time.time()
+    while not pred():
+        if time.time() - t0 > 10:
+            raise GroundTruth("timeout waiting for " + what)
+        await trio.sleep(0.001)
+
+
+def ft_hold(fts, acts, i, out, bad):
+    """the Trio thread is stuck in synchronous code: obey the actions up to the next unblock"""
+    while i < len(acts) and acts[i]["a"] != "unblock":
+        a = acts[i]
+        if a["a"] == "call":
+            ft = fts[a["t"]]
+            ft.callno += 1
+            ft.cmd.put(a["n"])
+            ft_wait(ft.blocked_in_call, "thread to block in from_thread.run")
+        elif a["a"] == "observe":
+            ft_observe(fts, a, out, bad, acts[:i + 1])
+        else:
+            raise GroundTruth("action %s while busy" % a["a"])
+        i += 1
+    return i
+
+
+async def run_foreign(beh, out):
+    acts = beh["acts"]
+    token = trio.lowlevel.current_trio_token()
+    fts = {t: FT(t, token) for t in beh["threads"]}
+    bad = []
+    i = 0
+    try:
+        while i < len(acts) and not bad:
+            a = acts[i]
+            if a["a"] == "block":
+                i = ft_hold(fts, acts, i + 1, out, bad)
+                # leaving the synchronous code: every queued call gets its task and runs to its parking point
+                i += 1
+                for ft in fts.values():
+                    if ft.callno > ft.returned:
+                        await ft_await(lambda ft=ft: ft.bottom == ft.callno, "queued call to be served")
+                await trio.testing.wait_all_tasks_blocked()
+                continue
+            if a["a"] == "call":
+                ft = fts[a["t"]]
+                ft.callno += 1
+                ft.cmd.put(a["n"])
+                await ft_await(lambda: ft.bottom == ft.callno, "call to be served")
+                await trio.testing.wait_all_tasks_blocked()
+            elif a["a"] == "serve":
+                if fts[a["t"]].callno not in fts[a["t"]].serving:
+                    raise GroundTruth("serve: no task")
+            elif a["a"] == "finish":
+                ft = fts[a["t"]]
+                ft.release.set()
+                await ft_await(lambda: ft.returned == ft.callno, "call to return")
+                ft_wait(lambda: ft.chain() and ft.chain()[-1].f_code.co_filename in (queue.__file__, threading.__file__), "thread idle")
+            elif a["a"] == "observe":
+                ft_observe(fts, a, out, bad, acts[:i + 1])
+            i += 1
+    finally:
+        for ft in fts.values():
+            if ft.callno > ft.returned:
+                await ft_await(lambda ft=ft: ft.bottom == ft.callno, "pending call to be served (cleanup)")
+                ft.release.set()
+                await ft_await(lambda ft=ft: ft.returned == ft.callno, "pending call to return (cleanup)")
+            ft.cmd.put(None)
+    return bad
+
+
+def main_foreign(data, out):
+    out["foreign_n"] = 0
+    out["foreign"] = []
+    for bi, beh in enumerate(data.get("foreign", [])):
+        try:
+            bad = trio.run(run_foreign, beh, out)
+        except GroundTruth as ex:
+            out["gt_errors"].append({"behaviour": "foreign %d" % bi, "what": str(ex)})
+            continue
+        except BaseException:
+            import traceback
+            out["gt_errors"].append({"behaviour": "foreign %d" % bi, "what": "harness exception: " + traceback.format_exc()[-700:]})
+            continue
+        out["foreign_n"] += 1
+        out["foreign"] += bad
+
+
 def main():
     data = json.load(open(sys.argv[1]))
     out = {"n": 0, "observations": 0, "mismatches": [], "gt_errors": [], "pingpong": [], "pingpong_n": 0}
@@ -259,6 +474,7 @@ def main():
         out["n"] += 1
         out["mismatches"] += bad
     out["pingpong_n"] = run_pingpong(out["pingpong"], data["pingpong"])
+    main_foreign(data, out)
     json.dump(out, open(sys.argv[2], "w"))
 
 
